@@ -15,6 +15,7 @@
 #include <cinttypes>
 #include <iomanip>
 #include <iostream>
+#include <locale>
 #include <memory>
 #include <optional>
 #include <sstream>
@@ -76,7 +77,77 @@ struct Extras
   int copy_kind = 0;         // 0 none, 1 copy-construct and destroy the source, 2 same through std::move, 3 fork
   double copy_at = 0, snapshot_at = 0;   // positions in the history, as fractions
   bool interference = false;
+  // global C++ locale switched during the history
+  int nswitch = 0;
+  struct Switch {double pos; int where; int loc;} sw[3];   // where: 0 before the event's calls, 1 between a
+                                                            // library call and the getReport that observes it
 };
+
+// ------------------------------------------------------------------------------------------
+// global locales the application may switch to: classic, decimal comma, decimal comma + '.' grouping
+// ------------------------------------------------------------------------------------------
+struct CommaPunct : std::numpunct<char>
+{
+  char do_decimal_point() const override {return ',';}
+};
+struct CommaGroupPunct : std::numpunct<char>
+{
+  char do_decimal_point() const override {return ',';}
+  char do_thousands_sep() const override {return '.';}
+  std::string do_grouping() const override {return "\3";}
+};
+const std::locale & loc_of(int id)
+{
+  static const std::locale L[3] = {std::locale::classic(), std::locale(std::locale::classic(), new CommaPunct),
+    std::locale(std::locale::classic(), new CommaGroupPunct)};
+  return L[id];
+}
+struct LocaleGuard      // the case must hand back the classic global locale on every path
+{
+  ~LocaleGuard() {std::locale::global(std::locale::classic());}
+};
+
+// Strict reading of a number printed under locale `id` (0 classic, 1 decimal comma, 2 decimal comma and
+// '.' grouping by 3): returns false when the punctuation is not the one that locale produces, else the
+// classic spelling in `out`.
+bool delocalize(const std::string & v, int id, std::string & out)
+{
+  out.clear();
+  if (id == 0) {
+    if (v.find(',') != std::string::npos) {return false;}
+    out = v;
+    return true;
+  }
+  size_t i = 0;
+  if (i < v.size() && (v[i] == '-' || v[i] == '+')) {out += v[i]; ++i;}
+  // integer part
+  size_t digits = 0, group = 0;
+  bool grouped = false;
+  for (; i < v.size() && ((v[i] >= '0' && v[i] <= '9') || v[i] == '.'); ++i) {
+    if (v[i] == '.') {
+      if (id != 2) {return false;}                         // a point is not a decimal comma
+      if (group == 0 || (grouped && group != 3) || (!grouped && group > 3)) {return false;}
+      grouped = true; group = 0;
+    } else {out += v[i]; ++digits; ++group;}
+  }
+  if (grouped && group != 3) {return false;}
+  if (id == 2 && !grouped && digits > 3) {return false;}   // grouping is not optional
+  if (digits == 0) {return false;}
+  // fraction and exponent: no point allowed any more, the comma is the decimal separator
+  bool comma = false;
+  for (; i < v.size(); ++i) {
+    if (v[i] == '.') {return false;}
+    if (v[i] == ',') {if (comma) {return false;} comma = true; out += '.';} else {out += v[i];}
+  }
+  return true;
+}
+
+std::string fresh_stream_format(double v)       // what a stream constructed now prints (global locale)
+{
+  std::ostringstream os;
+  os << v;
+  return os.str();
+}
 
 // largest first stamp: int64 max minus the longest history the generator can append
 // (500 periods of 10 s + the far-future heartbeat + the continuation fed to a forked copy)
@@ -117,6 +188,16 @@ void draw_extras(vh::Rng & q, Extras & x)
   x.copy_at = q.uni();
   x.snapshot_at = q.uni();
   x.interference = q.coin(0.25);
+  if (q.coin(0.2)) {
+    x.nswitch = static_cast<int>(q.range(1, 3));
+    for (int i = 0; i < x.nswitch; ++i) {
+      x.sw[i].pos = q.uni();
+      x.sw[i].where = q.coin(0.35) ? 1 : 0;
+      x.sw[i].loc = static_cast<int>(q.range(0, 2));
+    }
+    if (q.coin(0.4)) {x.sw[0].pos = -1.0; x.sw[0].where = 0; x.sw[0].loc = static_cast<int>(q.range(1, 2));}
+    if (x.sw[0].loc == 0 && x.nswitch == 1) {x.sw[0].loc = static_cast<int>(q.range(1, 2));}
+  }
 }
 
 struct Config
@@ -423,13 +504,14 @@ int verdict_of_message(const std::string & msg)
 struct Names
 {
   std::string shape, no_data, stale, msg, status, status_band, skip, value_parses, value_zero, value_vs_rate,
-    eval_ret, hb_ret, hb_nochange;
+    eval_ret, hb_ret, hb_nochange, value_locale, value_fresh;
   explicit Names(const std::string & p)
   : shape(p + ".report_shape"), no_data(p + ".no_data"), stale(p + ".stale"), msg(p + ".message_matches_status"),
     status(p + ".status"), status_band(p + ".status_in_band"), skip(p + ".status:threshold_band"),
     value_parses(p + ".value_parses"), value_zero(p + ".value_zero"), value_vs_rate(p + ".value_vs_rate"),
     eval_ret(p + ".evaluate_returns_status"), hb_ret(p + ".heartbeat_return"),
-    hb_nochange(p + ".early_heartbeat_changes_nothing") {}
+    hb_nochange(p + ".early_heartbeat_changes_nothing"), value_locale(p + ".value_punctuation_of_locale_in_force"),
+    value_fresh(p + ".value_equals_fresh_stream_output") {}
 };
 const Names N_EQ("checkup_eq"), N_GT("checkup_gt");
 
@@ -454,12 +536,15 @@ struct Fast
   const std::function<std::string()> & wit;
   vh::Stat & stat(const char * name)
   {
-    // keyed by the address of the (static) name; Ctx and its map nodes live for the whole process
-    static std::map<const char *, vh::Stat *> cache;
-    auto it = cache.find(name);
-    if (it != cache.end()) {return *it->second;}
-    vh::Stat * s = &c.margins[name];
-    cache[name] = s;
+    // keyed by the address of the (static) name; Ctx and its map nodes live for the whole process.
+    // As in Ctx::expect*, cases run under a directed caller rounding mode are booked separately.
+    static std::map<const char *, vh::Stat *> cache[2];
+    const bool directed = c.caller_rounding != FE_TONEAREST;
+    auto & ch = cache[directed ? 1 : 0];
+    auto it = ch.find(name);
+    if (it != ch.end()) {return *it->second;}
+    vh::Stat * s = directed ? &c.margins[std::string(name) + "@directed_rounding"] : &c.margins[name];
+    ch[name] = s;
     return *s;
   }
   bool expect(const char * name, bool cond, const char * kind)
@@ -469,11 +554,12 @@ struct Fast
   }
   bool expect_le(const char * name, LD observed, LD tol, const char * kind)
   {
-    bool ok = std::isfinite(static_cast<double>(observed)) && observed <= tol && tol > 0;
+    const LD stol = tol * c.tol_scale;          // Ctx::expect_le applies the same widening itself
+    bool ok = std::isfinite(static_cast<double>(observed)) && observed <= stol && stol > 0;
     if (!ok) {return c.expect_le(name, observed, tol, kind, params, wit);}
     vh::Stat & st = stat(name);
     ++st.n;
-    LD ratio = observed / tol;
+    LD ratio = observed / stol;
     if (ratio > st.worst) {st.worst = static_cast<double>(ratio); st.worst_case = std::to_string(c.cur);}
     return true;
   }
@@ -485,6 +571,7 @@ static void one_case(vh::Ctx & c, uint64_t idx)
 {
   vh::Rng r(c.seed, idx);
   vh::Rng q(c.seed, idx, 1);        // variants: independent of the history
+  LocaleGuard locale_guard;
   Extras x;
   draw_extras(q, x);
   Config cfg;
@@ -577,6 +664,15 @@ static void one_case(vh::Ctx & c, uint64_t idx)
     c.cat(STYLE[x.arg_style]);
     if (x.default_ctor) {c.cat("monitor_default_ctor_then_initialize");}
     if (x.interference) {c.cat("interference_steps");}
+    if (x.nswitch && drive_cu) {
+      c.cat("locale_switched_during_history");
+      for (int i = 0; i < x.nswitch; ++i) {
+        if (x.sw[i].pos < 0) {c.cat("locale_switch_before_first_evaluation");}
+        if (x.sw[i].where == 1) {c.cat("locale_switch_between_call_and_getReport");}
+        c.cat(x.sw[i].loc == 0 ? "locale_switch_to_classic" : (x.sw[i].loc == 1 ? "locale_switch_to_decimal_comma" :
+          "locale_switch_to_comma_and_grouping"));
+      }
+    }
     c.count("stamps", nst);
     c.count("heartbeats", nhb);
     c.count("timeouts", m.timeouts);
@@ -592,6 +688,33 @@ static void one_case(vh::Ctx & c, uint64_t idx)
              .arr("first_event_times_ns", head.begin(), head.end()).str();
     };
   c.sample(std::string("periods_") + PERIOD_MODES[pmode], sample);
+
+  // ---- global locale switches (only in histories that reach the check-ups)
+  int cur_loc = 0;                       // locale in force
+  int val_loc[2] = {0, 0};               // locale in force when the check-up last formatted its value
+  std::string exp_val[2];                // what a fresh stream printed for the modelled rate at that moment
+  bool seen_grouped = false, seen_comma = false;
+  const bool locale_case = x.nswitch > 0 && drive_cu;
+  size_t sw_k[3] = {0, 0, 0};
+  for (int i = 0; i < x.nswitch; ++i) {
+    sw_k[i] = x.sw[i].pos < 0 ? 0 : static_cast<size_t>(x.sw[i].pos * static_cast<double>(ev.size()));
+  }
+  auto apply_switches = [&](size_t at, int where) {
+      if (!locale_case) {return;}
+      for (int i = 0; i < x.nswitch; ++i) {
+        if (sw_k[i] == at && x.sw[i].where == where && !(x.sw[i].pos < 0)) {
+          cur_loc = x.sw[i].loc;
+          std::locale::global(loc_of(cur_loc));
+          c.count("locale_switches");
+        }
+      }
+    };
+  if (locale_case && x.sw[0].pos < 0) {
+    // before anything is constructed, hence before the very first evaluation
+    cur_loc = x.sw[0].loc;
+    std::locale::global(loc_of(cur_loc));
+    c.count("locale_switches");
+  }
 
   // ---- construct the real objects.  The constructor arguments live on the heap, are overwritten
   // and freed right after construction (nothing may keep a reference to them); with eps_kind 2
@@ -754,17 +877,63 @@ static void one_case(vh::Ctx & c, uint64_t idx)
         if (!f.expect(n.status_band.c_str(), (mv & allowed) != 0, "checkup_status")) {return false;}
       }
       if (mv == V_OK) {seen_ok = true;} else if (mv == V_LOW) {seen_low = true;} else {seen_high = true;}
-      // value string = the rate, to the 6 significant digits of the default stream format
-      char * end = nullptr;
-      double pv = o.value.empty() ? NAN : std::strtod(o.value.c_str(), &end);
-      bool parsed = !o.value.empty() && end && *end == '\0' && std::isfinite(pv);
+      // value string = the rate, to the 6 significant digits of the default stream format, read
+      // according to the global locale that was in force when the check-up formatted it
+      const int vl = val_loc[equal_to ? 0 : 1];
+      const LD unit6 = mrate > 0 ? powl(10.0L, floorl(log10l(mrate)) - 5.0L) : 0;   // one unit of the 6th digit
+      const LD vtol = unit6 + 1e-12L * mrate;
+      auto read = [&](int loc, double & pv) -> bool {
+          std::string norm;
+          if (o.value.empty() || !delocalize(o.value, loc, norm)) {return false;}
+          char * end = nullptr;
+          pv = std::strtod(norm.c_str(), &end);
+          return end && *end == '\0' && std::isfinite(pv);
+        };
+      auto agrees = [&](double pv) {
+          return mrate == 0 ? pv == 0.0 : fabsl(static_cast<LD>(pv) - mrate) <= vtol * c.tol_scale;
+        };
+      double pv = NAN;
+      const bool parsed = read(vl, pv);
+      if (locale_case) {
+        if (!(parsed && agrees(pv))) {
+          // the right number in the punctuation of another locale is a failure of its own kind
+          for (int l2 = 0; l2 < 3; ++l2) {
+            double p2 = NAN;
+            if (l2 != vl && read(l2, p2) && agrees(p2)) {
+              return f.expect(n.value_locale.c_str(), false, "info_value_locale");
+            }
+          }
+        } else {
+          f.expect(n.value_locale.c_str(), true, "info_value_locale");
+        }
+      }
       if (!f.expect(n.value_parses.c_str(), parsed, "checkup_value")) {return false;}
       if (mrate == 0) {
-        return f.expect(n.value_zero.c_str(), pv == 0.0, "checkup_value");
+        if (!f.expect(n.value_zero.c_str(), pv == 0.0, "checkup_value")) {return false;}
+      } else if (!f.expect_le(n.value_vs_rate.c_str(), fabsl(static_cast<LD>(pv) - mrate), vtol, "checkup_value")) {
+        return false;
       }
-      LD unit6 = powl(10.0L, floorl(log10l(mrate)) - 5.0L);     // one unit of the 6th significant digit
-      return f.expect_le(n.value_vs_rate.c_str(), fabsl(static_cast<LD>(pv) - mrate), unit6 + 1e-12L * mrate,
-               "checkup_value");
+      if (locale_case) {
+        // exactly what a fresh stream printed at the time of the formatting call; the library's double may
+        // differ from the modelled rate in the last places, so its neighbours are admitted as well
+        if (o.value.find(',') != std::string::npos) {seen_comma = true;}
+        if (vl == 2 && o.value.find('.') != std::string::npos) {seen_grouped = true;}
+        bool same = o.value == exp_val[equal_to ? 0 : 1];
+        if (!same) {
+          double lo = static_cast<double>(mrate), hi = lo;
+          for (int j = 0; j < 8 && !same; ++j) {
+            lo = std::nextafter(lo, 0.0); hi = std::nextafter(hi, INFINITY);
+            for (double d : {lo, hi}) {
+              std::ostringstream os;
+              os.imbue(loc_of(vl));
+              os << d;
+              if (os.str() == o.value) {same = true;}
+            }
+          }
+        }
+        return f.expect(n.value_fresh.c_str(), same, "info_value_locale");
+      }
+      return true;
     };
   auto finish_case = [&]() {
       if (seen_ok) {c.cat("status_ok_seen");}
@@ -773,6 +942,8 @@ static void one_case(vh::Ctx & c, uint64_t idx)
       if (seen_stale) {c.cat("status_stale_seen");}
       if (seen_nodata) {c.cat("status_no_data_seen");}
       if (seen_tie) {c.cat("rate_exactly_on_threshold_seen");}
+      if (seen_comma) {c.cat("value_with_decimal_comma_seen");}
+      if (seen_grouped) {c.cat("value_with_thousands_grouping_seen");}
       if (band_skips[0]) {c.skips[N_EQ.skip] += band_skips[0];}
       if (band_skips[1]) {c.skips[N_GT.skip] += band_skips[1];}
     };
@@ -915,11 +1086,16 @@ static void one_case(vh::Ctx & c, uint64_t idx)
   for (k = 0; k < ev.size(); ++k) {
     const Ev & e = ev[k];
     bool ok = true;
+    apply_switches(k, 0);
     if (e.quiet) {
       // ---------------------------------------------------------------- unobserved repetition
       if (!e.hb) {
         m.stamp(e.t);
         do_update(e.t);
+        if (locale_case) {
+          val_loc[0] = val_loc[1] = cur_loc;
+          exp_val[0] = exp_val[1] = fresh_stream_format(static_cast<double>(m.rate()));
+        }
         if (drive_cu) {do_eval_eq(e.t); do_eval_gt(e.t);}
       } else {
         m.heartbeat(e.t);
@@ -946,8 +1122,11 @@ static void one_case(vh::Ctx & c, uint64_t idx)
             "rate_mismatch") && ok;
       }
       if (drive_cu) {
+        if (locale_case) {val_loc[0] = cur_loc; exp_val[0] = fresh_stream_format(static_cast<double>(mrate));}
         const DiagnosticStatus s1 = do_eval_eq(e.t);
+        apply_switches(k, 1);            // between evaluate and the getReport that observes it
         Obs o1 = observe(ccu_eq.getReport(), key);
+        if (locale_case) {val_loc[1] = cur_loc; exp_val[1] = fresh_stream_format(static_cast<double>(mrate));}
         const DiagnosticStatus s2 = do_eval_gt(e.t);
         Obs o2 = observe(ccu_gt.getReport(), key);
         who = 1;
@@ -974,6 +1153,7 @@ static void one_case(vh::Ctx & c, uint64_t idx)
       }
       if (drive_cu) {
         const bool r1 = do_hb_eq(e.t);
+        apply_switches(k, 1);            // between heartBeatCallback and the getReport that observes it
         Obs o1 = observe(ccu_eq.getReport(), key);
         const bool r2 = do_hb_gt(e.t);
         Obs o2 = observe(ccu_gt.getReport(), key);
